@@ -32,6 +32,7 @@ import (
 	"sort"
 	"strconv"
 	"strings"
+	"sync"
 	"testing"
 	"testing/synctest"
 	"time"
@@ -324,6 +325,19 @@ func mkLive(h handle, ids map[string]string) live {
 
 // ---------------------------------------------------------------- the driver
 
+// admit keeps at most 12 stored mismatches per kind (the result file holds 50), all are counted.
+var (
+	admitMu sync.Mutex
+	admitN  = map[string]int{}
+)
+
+func admit(what string) bool {
+	admitMu.Lock()
+	defer admitMu.Unlock()
+	admitN[what]++
+	return admitN[what] <= 12
+}
+
 var inPlaceOps = map[string]bool{"extend": true, "comment": true, "annotate": true, "expire": true, "relog": true}
 
 func copyFile(dst, src string) error {
@@ -395,9 +409,16 @@ func replayStore(t *testing.T, res *hx.Result, idx int, line []byte, b *sBehavio
 			time.Sleep(dl)
 		}
 	}
-	bad := false
+	bad, lost := false, false
 	fail := func(step int, class, what, got string) {
-		bad = true
+		lost = lost || class == "lossless" // from here on the store may legitimately differ from the model (state was lost)
+		if class != "lossless" {
+			bad = true // the model does not describe the run any more: stop; a lost state is followed to the restart
+		}
+		if !admit(what) {
+			res.Count("mismatches_not_stored", 1)
+			return
+		}
 		res.Add(hx.Mismatch{Case: idx, Step: step, What: what, Class: class, Got: k.name + ": " + got,
 			Replay: hx.J(map[string]any{"kind": b.Kind, "ret": b.Ret, "src": b.Src, "failed_at_step": step, "h": b.H})})
 	}
@@ -479,7 +500,7 @@ func replayStore(t *testing.T, res *hx.Result, idx int, line []byte, b *sBehavio
 			now, nops, passes, since = now+1, 0, 0, nil
 			if err := start(file); err != nil {
 				fail(i, "lossless", "start-up error after restart", err.Error())
-				return
+				return // no store to go on with
 			}
 			running = true
 			got, probs := lv.proj()
@@ -511,13 +532,16 @@ func replayStore(t *testing.T, res *hx.Result, idx int, line []byte, b *sBehavio
 		}
 		if got, probs := lv.abs(); len(probs) > 0 {
 			fail(i, "conformance", "store inconsistent", probs[0])
-		} else if d := sameAbs(st.St, got); d != "" && !bad {
+		} else if d := sameAbs(st.St, got); d != "" && !bad && !lost {
 			fail(i, "conformance", "store after "+st.Op+" deviates from the specification", d)
 		}
 		res.Count("steps", 1)
 		if bad {
 			return
 		}
+	}
+	if lost {
+		return // keep the directory
 	}
 	if hit {
 		res.Count("nontrivial", 1)
